@@ -7,7 +7,8 @@
     C15_monitor_exact
     C15_frame C15_fresh_monitor_sound
     C15_grid_accessors_pure C15_grid_setters_refuted C15_cube_accessors_pure C15_image_accessors_pure
-    C15_deepcopy_independent C15_deepcopy_fresh_grid C15_deepcopy_fresh_image
+    C15_deepcopy_independent C15_deepcopy_fresh_grid C15_deepcopy_fresh_image C15_deepcopy_fresh_flowfield
+    C15_shallow_copy_shares_data
     C15_transform_accessors_partial C15_transform_accessors_refuted C15_transform_shared_parameters_refuted
     C15_transform_shared_child_refuted
 
@@ -179,11 +180,11 @@ def deepBlock (i : Nat) : List Prim :=
 
 def gridBlock (i : Nat) : List Prim := [Prim.store 11 (100 + i) 1]
 
-theorem deepBatch_eq (flow : Bool) (data n : Nat) :
-    imageOpPrims flow data (.deepBatch n) = deepA ++ (List.range n).flatMap deepBlock ++ [.store 10 kGrid 19] := rfl
+theorem deepBatch_eq (data n : Nat) :
+    imageOpPrims data (.deepBatch n) = deepA ++ (List.range n).flatMap deepBlock ++ [.store 10 kGrid 19] := rfl
 
 theorem gridOfBatch_eq (data n : Nat) :
-    imageOpPrims false data (.gridOfBatch n) =
+    imageOpPrims data (.gridOfBatch n) =
       [.copyNode 10 0, .newNode 11 tTuple 0] ++ (List.range n).flatMap gridBlock ++ [.store 10 kGrid 11] := rfl
 
 theorem deepBlock_ok (i : Nat) : ∃ F', freshFinal [19, 10] (deepBlock i) = some F' ∧ ∀ r ∈ [19, 10], r ∈ F' :=
@@ -202,21 +203,18 @@ theorem freshOnly_sandwich (A C : List Prim) (block : Nat → List Prim) (K FA :
   simp only [Option.bind_some, hG']
   exact hC G' hKG
 
-theorem freshOnly_imageOp (flow : Bool) (data : Nat) (op : ImageOp) : freshOnly [] (imageOpPrims flow data op) = true := by
+theorem freshOnly_imageOp (data : Nat) (op : ImageOp) : freshOnly [] (imageOpPrims data op) = true := by
   cases op with
-  | gridOfImage => cases flow <;> rfl
-  | shallow => cases flow <;> rfl
+  | gridOfImage => rfl
+  | shallow => rfl
   | functional => rfl
   | deepImage => rfl
   | gridOfBatch n =>
-      cases flow with
-      | true => rfl
-      | false =>
-          rw [gridOfBatch_eq]
-          refine freshOnly_sandwich _ _ gridBlock [11, 10] [11, 10] _ rfl (fun _ h => h) gridBlock_ok ?_
-          intro G hG
-          have h10 : 10 ∈ G := hG 10 (by decide)
-          simp [freshFinal, freshStep, h10]
+      rw [gridOfBatch_eq]
+      refine freshOnly_sandwich _ _ gridBlock [11, 10] [11, 10] _ rfl (fun _ h => h) gridBlock_ok ?_
+      intro G hG
+      have h10 : 10 ∈ G := hG 10 (by decide)
+      simp [freshFinal, freshStep, h10]
   | deepBatch n =>
       rw [deepBatch_eq]
       refine freshOnly_sandwich deepA _ deepBlock [19, 10] [19, 13, 10] _ rfl (by decide) deepBlock_ok ?_
@@ -224,12 +222,13 @@ theorem freshOnly_imageOp (flow : Bool) (data : Nat) (op : ImageOp) : freshOnly 
       have h10 : 10 ∈ G := hG 10 (by decide)
       simp [freshFinal, freshStep, h10]
 
-/-- **Image / ImageBatch / FlowField(s) operations are pure**: `grid(g)`, shallow copies, every
-    functional method, and the deep copies — for every batch size `n` — leave every existing object
-    unchanged (for flow fields `grid(g)` and `copy.copy` raise, which changes nothing either). -/
-theorem C15_image_accessors_pure (flow : Bool) (op : ImageOp) (data : Nat) (st : OState) :
-    Preserves st (runProg st (imageOpProg flow op data)) :=
-  prims_preserve _ (freshOnly_imageOp flow data op) st
+/-- **Image / ImageBatch / FlowField / FlowFields operations are pure**: `grid(g)`, shallow copies
+    (`copy.copy`, which since commit 5463a8b also works for flow fields), every functional method, and the
+    deep copies — for every batch size `n`, in every heap, whatever further attributes the object carries
+    (`_axes` of flow fields is copied with the object node) — leave every existing object unchanged. -/
+theorem C15_image_accessors_pure (op : ImageOp) (data : Nat) (st : OState) :
+    Preserves st (runProg st (imageOpProg op data)) :=
+  prims_preserve _ (freshOnly_imageOp data op) st
 
 /-- **Deep copies are independent in both directions.**  Let `So` and `Sc` be the (reference-closed)
     node sets of the original and of the copy, and suppose they are disjoint (see
@@ -277,10 +276,61 @@ def canonImageState : OState := initState canonImageHeap (fun r => if r = 0 then
 
 /-- `Image.__deepcopy__` on the canonical image: same statement (new nodes `[14, 25)`). -/
 theorem C15_deepcopy_fresh_image :
-    let st' := runProg canonImageState (imageOpProg false .deepImage 0)
+    let st' := runProg canonImageState (imageOpProg .deepImage 0)
     st'.halted = false ∧ st'.heap.next = 25 ∧ 14 ≤ st'.regs 10 ∧ st'.regs 10 < 25 ∧
     closedInterval st'.heap 14 25 = true ∧ closedInterval st'.heap 0 14 = true ∧
     (List.range 14).all (fun n => st'.heap.node n == canonImageHeap.node n) = true := by
+  decide
+
+/-- canonical flow field: object 12 with storage 13, the canonical grid (node 1) as `_grid` and `_axes` -/
+def canonFlowHeap : OHeap :=
+  { node := fun n => if n = 12 then ⟨tImage, 0, [(kData, .ref 13), (kGrid, .ref 1), (kAxes, .imm 3)]⟩
+                     else if n = 13 then ⟨tOther, 13, []⟩ else canonGridHeap.node n,
+    next := 14 }
+
+/-- canonical batch of two flow fields: object 12, storage 13, `_grid` = tuple 14 of the grids 1 and 15 -/
+def canonFlowBatchHeap : OHeap :=
+  { node := fun n => if n = 12 then ⟨tImage, 0, [(kData, .ref 13), (kGrid, .ref 14), (kAxes, .imm 3)]⟩
+                     else if n = 13 then ⟨tOther, 13, []⟩
+                     else if n = 14 then ⟨tTuple, 0, [(100, .ref 1), (101, .ref 15)]⟩
+                     else if n = 15 then ⟨tGrid, 0, [(kSize, .ref 2), (kCenter, .ref 4), (kSpacing, .ref 6), (kDirection, .ref 8), (kAlignCorners, .imm 0)]⟩
+                     else canonGridHeap.node n,
+    next := 16 }
+
+def onObject (h : OHeap) (self arg : Nat) : OState := initState h (fun r => if r = 0 then self else if r = 1 then arg else 0)
+
+/-- run `p` with the *result* of the previous program as receiver -/
+def thenOnResult (st : OState) (p : Prog) : OState :=
+  runProg { st with regs := fun r => if r = 0 then st.regs 10 else 0 } p
+
+/-- `FlowField.__deepcopy__` / `FlowFields.__deepcopy__` (inherited from Image / ImageBatch) on the canonical flow
+    field and the canonical batch of two: the copy's nodes are exactly the newly allocated interval, closed under
+    references, it keeps `_axes`, and every node of the original is unchanged. -/
+theorem C15_deepcopy_fresh_flowfield :
+    (let st' := runProg (onObject canonFlowHeap 12 0) (imageOpProg .deepImage 0)
+     st'.halted = false ∧ st'.heap.next = 25 ∧ 14 ≤ st'.regs 10 ∧ st'.regs 10 < 25 ∧
+     closedInterval st'.heap 14 25 = true ∧ closedInterval st'.heap 0 14 = true ∧
+     lookupEntry (st'.heap.node (st'.regs 10)).entries kAxes = some (.imm 3) ∧
+     (List.range 14).all (fun n => st'.heap.node n == canonFlowHeap.node n) = true) ∧
+    (let st' := runProg (onObject canonFlowBatchHeap 12 0) (imageOpProg (.deepBatch 2) 0)
+     st'.halted = false ∧ st'.heap.next = 37 ∧ 16 ≤ st'.regs 10 ∧ st'.regs 10 < 37 ∧
+     closedInterval st'.heap 16 37 = true ∧ closedInterval st'.heap 0 16 = true ∧
+     lookupEntry (st'.heap.node (st'.regs 10)).entries kAxes = some (.imm 3) ∧
+     (List.range 16).all (fun n => st'.heap.node n == canonFlowBatchHeap.node n) = true) := by
+  decide +kernel
+
+/-- **Shallow copies share the data** (what the model predicts and the `image_programs` stream confirms, now also
+    for flow fields): `copy.copy(flow)` and `flow.grid(g)` leave the original unchanged *when they are made*, but the
+    new object lives on the same storage — an in-place write through the copy (`copy.add_(…)`) changes the
+    original's data (node 13) and nothing else of it; the same write through a deep copy changes nothing. -/
+theorem C15_shallow_copy_shares_data :
+    (let st2 := thenOnResult (runProg (onObject canonFlowHeap 12 0) (imageOpProg .shallow 0)) (imagePokeProg 99)
+     st2.halted = false ∧ st2.heap.node 13 ≠ canonFlowHeap.node 13 ∧
+     (List.range 14).all (fun n => n == 13 || st2.heap.node n == canonFlowHeap.node n) = true) ∧
+    (let st2 := thenOnResult (runProg (onObject canonFlowHeap 12 1) (imageOpProg .gridOfImage 0)) (imagePokeProg 99)
+     st2.halted = false ∧ st2.heap.node 13 ≠ canonFlowHeap.node 13) ∧
+    (let st2 := thenOnResult (runProg (onObject canonFlowHeap 12 0) (imageOpProg .deepImage 0)) (imagePokeProg 99)
+     st2.halted = false ∧ (List.range 14).all (fun n => st2.heap.node n == canonFlowHeap.node n) = true) := by
   decide
 
 /-! ### Transforms: which accessors are pure depends on where `params` lives -/
